@@ -970,6 +970,8 @@ pub fn sync_sender_send_delay_if_full<T>(m: T, tx: &SyncSender<T>) -> Result<(),
     match tx.try_send(m) {
         Ok(_) => Ok(()),
         Err(TrySendError::Full(m)) => {
+            #[cfg(adlt_verif)]
+            crate::verif::send_full_hit();
             std::thread::sleep(std::time::Duration::from_millis(10));
             tx.send(m)
         }
